@@ -58,6 +58,8 @@ def _coerce_value(m, t, v):
 
 def _coerce_scalar_value(t, kind, v):
     if t == "Int":
+        if isinstance(v, float) and math.isfinite(v) and v == int(v):
+            v = int(v)  # an integral number is an integer input value (JSON has one number type)
         if isinstance(v, bool) or not isinstance(v, int):
             return INVALID
         return v if INT_MIN <= v <= INT_MAX else INVALID
@@ -68,6 +70,8 @@ def _coerce_scalar_value(t, kind, v):
             f = float(v)
         except OverflowError:
             return INVALID
+        if isinstance(v, int) and f != v:
+            return INVALID  # an integer that has no exact double would lose precision silently
         return f if math.isfinite(f) else INVALID
     if t == "String":
         return v if isinstance(v, str) else INVALID
@@ -78,6 +82,8 @@ def _coerce_scalar_value(t, kind, v):
             return v
         if isinstance(v, int) and not isinstance(v, bool):
             return str(v)
+        if isinstance(v, float) and math.isfinite(v) and v == int(v):
+            return str(int(v))
         return INVALID
     return v  # custom scalar: identity
 
